@@ -31,10 +31,11 @@ type c01Shape struct {
 	RespFrame string // length, chunked, flush
 	Trailer   []wire.HeaderLine
 	FixedDate bool // the backend sets a (backdated) Date header itself
+	NoCType   bool // the backend sends no Content-Type header at all
 }
 
 func (s c01Shape) String() string {
-	return fmt.Sprintf("%s %s req=%d/chunked=%v hdr=%d -> %d(+%d) resp=%d/%s hdr=%d", s.Method, s.Target, s.ReqSize, s.ReqChunk, len(s.ReqHdr), s.Status, s.Interim, s.RespSize, s.RespFrame, len(s.RespHdr))
+	return fmt.Sprintf("%s %s req=%d/chunked=%v hdr=%d -> %d(+%d) resp=%d/%s hdr=%d"+map[bool]string{true: " no-content-type"}[s.NoCType], s.Method, s.Target, s.ReqSize, s.ReqChunk, len(s.ReqHdr), s.Status, s.Interim, s.RespSize, s.RespFrame, len(s.RespHdr))
 }
 
 func (s c01Shape) request(host string) *wire.Request {
@@ -51,6 +52,9 @@ func (s c01Shape) request(host string) *wire.Request {
 
 func (s c01Shape) script() *wire.Script {
 	sc := &wire.Script{Status: s.Status, Interim: s.Interim, Header: append([]wire.HeaderLine{{"Content-Type", "application/octet-stream"}}, s.RespHdr...)}
+	if s.NoCType {
+		sc.Header, sc.NoContentType = append([]wire.HeaderLine(nil), s.RespHdr...), true
+	}
 	if s.FixedDate {
 		sc.Header = append(sc.Header, wire.HeaderLine{"Date", "Tue, 15 Nov 1994 08:12:31 GMT"})
 	}
@@ -117,6 +121,29 @@ func newC01Inst(name, strategy, basePath string, reqID, trace bool) (*c01Inst, e
 	h, err := startHelios(cfg)
 	if err != nil {
 		return nil, err
+	}
+	if strings.HasPrefix(name, "rebase:") {
+		// the backend's registration has a history: it was first registered (and served a request)
+		// under another base path on the same host and port, then taken out and registered again,
+		// under the same or under a new name (Admin API). What counts is the registration in force
+		was, now := "/v1", strings.TrimPrefix(name, "rebase:")
+		h.lb.RemoveBackend("b0")
+		if err := h.lb.AddBackend(config.BackendConfig{Name: "b0", Address: be.URL() + was, Weight: 1}); err != nil {
+			return nil, err
+		}
+		e := &exch{addr: h.addr}
+		e.do(&wire.Request{Method: "GET", Target: "/warm-up", Header: []wire.HeaderLine{{"Host", "origin.test"}}, NoBody: true}, 10*time.Second)
+		e.close()
+		be.TakeSeen()
+		h.lb.RemoveBackend("b0")
+		newName := "b0"
+		if strings.HasSuffix(now, "+renamed") {
+			now, newName = strings.TrimSuffix(now, "+renamed"), "b0-new"
+		}
+		if err := h.lb.AddBackend(config.BackendConfig{Name: newName, Address: be.URL() + now, Weight: 1}); err != nil {
+			return nil, err
+		}
+		basePath = now
 	}
 	in := &c01Inst{name: name, h: h, be: be, direct: &exch{addr: be.Addr()}, via: &exch{addr: h.addr}, basePath: basePath}
 	if reqID {
@@ -496,9 +523,15 @@ func TestVerifC01(t *testing.T) {
 			x.Trailer = []wire.HeaderLine{{"X-Checksum", "abc123"}, {"X-Count", "2"}}
 			jobs = append(jobs, job{"round_robin", x})
 		}
-		for _, inst := range []string{"base:/base", "base:/base/", "least_connections", "weighted_round_robin", "ip_hash", "ip_hash_consistent", "ids:req", "ids:trace", "ids:both"} {
+		{
+			// a backend that labels its body with no media type: none is to be made up for it
+			x := s
+			x.NoCType = true
+			jobs = append(jobs, job{"round_robin", x})
+		}
+		for _, inst := range []string{"base:/base", "base:/base/", "rebase:/v2", "rebase:+renamed", "rebase:/v2/+renamed", "least_connections", "weighted_round_robin", "ip_hash", "ip_hash_consistent", "ids:req", "ids:trace", "ids:both"} {
 			targets := []string{"/r"}
-			if strings.HasPrefix(inst, "base:") {
+			if strings.HasPrefix(inst, "base:") || strings.HasPrefix(inst, "rebase:") {
 				targets = []string{"/", "/a/b", "/a%2Fb", "/hello!/it's(me)?q=%26", "/a/./b/../c", "/x%20y/"}
 			}
 			for _, tg := range targets {
@@ -526,6 +559,8 @@ func TestVerifC01(t *testing.T) {
 		switch {
 		case strings.HasPrefix(name, "base:"):
 			in, err = newC01Inst(name, "round_robin", strings.TrimPrefix(name, "base:"), false, false)
+		case strings.HasPrefix(name, "rebase:"):
+			in, err = newC01Inst(name, "round_robin", "", false, false)
 		case name == "ids:req":
 			in, err = newC01Inst(name, "round_robin", "", true, false)
 		case name == "ids:trace":
